@@ -164,7 +164,7 @@ func c02PartA(k *fw.K, block int) {
 	}
 }
 
-var c02Scenarios = []string{"clone-no-keys", "clone-own-keys", "strip-dg14", "strip-dg15", "strip-both", "downgrade-cardaccess", "untrusted-issuer", "genuine"}
+var c02Scenarios = []string{"clone-no-keys", "clone-own-keys", "strip-dg14", "strip-dg15", "strip-both", "downgrade-cardaccess", "downgrade-cardaccess-extra-info", "untrusted-issuer", "genuine"}
 
 func c02PartB(k *fw.K, i int) {
 	r := k.RNG
@@ -255,6 +255,25 @@ func c02PartB(k *fw.K, i int) {
 		}
 		delete(card.LDS, chipsim.FidDG(14))
 		delete(card.LDS, chipsim.FidDG(15))
+	case "downgrade-cardaccess-extra-info":
+		if acc == perso.BACOnly {
+			k.Count("partB_downgrade_not_applicable")
+			return
+		}
+		// the genuine info stays first; one or two further infos that DG14 does not contain follow
+		own := chipsim.PaceInfoDER(chipsim.PaceOIDArcs(map[bool]int{false: chipsim.PaceECDHGM, true: chipsim.PaceECDHCAM}[acc == perso.PACECAM], o.Suite), 2, o.ParamID)
+		infos := [][]byte{own}
+		ns := symref.AllSuites[(int(o.Suite)+1+r.IntN(3))%4]
+		if ns == o.Suite {
+			ns = symref.AllSuites[(int(o.Suite)+1)%4]
+		}
+		extra := chipsim.PaceInfoDER(chipsim.PaceOIDArcs(chipsim.PaceECDHGM, ns), 2, o.ParamID)
+		infos = append(infos, extra)
+		if r.IntN(2) == 0 {
+			infos = append(infos, chipsim.PaceInfoDER(chipsim.PaceOIDArcs(chipsim.PaceECDHGM, o.Suite), 2, 8+(o.ParamID-8+3)%11))
+		}
+		card.MF[chipsim.FidCardAccess] = der.SetUnsorted(infos...)
+		card.PACE.Supported = append(card.PACE.Supported, chipsim.PaceSupport{Mapping: chipsim.PaceECDHGM, Suite: ns, ParamID: o.ParamID}, chipsim.PaceSupport{Mapping: chipsim.PaceECDHGM, Suite: o.Suite, ParamID: 8 + (o.ParamID-8+3)%11})
 	case "downgrade-cardaccess":
 		if acc == perso.BACOnly {
 			k.Count("partB_downgrade_not_applicable")
@@ -295,7 +314,7 @@ func c02PartB(k *fw.K, i int) {
 				k.Violation("trust:clone-trusted:"+sc+":"+where, "a clone with substituted key files is reported as trusted", det)
 				return false
 			}
-		case sc == "strip-dg14" || sc == "strip-dg15" || sc == "strip-both" || sc == "downgrade-cardaccess":
+		case sc == "strip-dg14" || sc == "strip-dg15" || sc == "strip-both" || sc == "downgrade-cardaccess" || sc == "downgrade-cardaccess-extra-info":
 			if sum.DataTrusted {
 				k.Violation("trust:incomplete-trusted:"+sc+":"+where, fmt.Sprintf("data reported trusted although %s", sc), det)
 				return false
